@@ -200,10 +200,10 @@ def run_case(case, scratch):
                     pend_err += err.read()
                     break
                 now = time.time()
-                if seen_sent is not None and now - seen_sent > 5:
+                if seen_sent is not None and now - seen_sent > 3:
                     out["flags"].append("errors-not-logged@%d" % k)
                     break
-                if now - t0 > 60:
+                if now - t0 > 15:
                     out["flags"].append("sync-timeout@%d" % k)
                     break
                 time.sleep(0.0005)
@@ -227,7 +227,7 @@ def run_case(case, scratch):
     finally:
         os.close(w)
     try:
-        rc = p.wait(timeout=60)
+        rc = p.wait(timeout=20)
     except subprocess.TimeoutExpired:
         p.kill()
         rc = p.wait()
@@ -246,12 +246,19 @@ def run_case(case, scratch):
 
 def main():
     scratch = sys.argv[1]
+    hangs = 0
     for ln in sys.stdin:
         if not ln.strip():
             continue
         case = json.loads(ln)
+        if hangs >= 2:  # early stop: do not wait for the same time-out hundreds of times
+            sys.stdout.write(json.dumps({"skipped": "early stop after 2 time-outs in this stream"}) + "\n")
+            sys.stdout.flush()
+            continue
         try:
             res = run_case(case, scratch)
+            if any("timeout" in f or "not-logged" in f for f in res.get("flags", [])):
+                hangs += 1
         except Exception as e:  # noqa
             res = {"harness_error": "%s: %s" % (type(e).__name__, e)}
         sys.stdout.write(json.dumps(res) + "\n")
